@@ -376,12 +376,24 @@ class ColorService:
             document.rtf_page_footer,
         ]
 
+        border_color_attributes = (
+            "border_color_left",
+            "border_color_right",
+            "border_color_top",
+            "border_color_bottom",
+            "border_color_first",
+            "border_color_last",
+        )
+
         for component in components:
             if component:
                 extract_colors_from_attribute(getattr(component, "text_color", None))
                 extract_colors_from_attribute(
                     getattr(component, "text_background_color", None)
                 )
+                # Table-rendered footnote/source carry cell borders too
+                for attr_name in border_color_attributes:
+                    extract_colors_from_attribute(getattr(component, attr_name, None))
 
         # Collect colors from column headers
         if document.rtf_column_header:
@@ -397,6 +409,10 @@ class ColorService:
                             extract_colors_from_attribute(
                                 getattr(header, "text_background_color", None)
                             )
+                            for attr_name in border_color_attributes:
+                                extract_colors_from_attribute(
+                                    getattr(header, attr_name, None)
+                                )
             else:
                 # Flat format
                 for header in headers:
@@ -407,6 +423,10 @@ class ColorService:
                         extract_colors_from_attribute(
                             getattr(header, "text_background_color", None)
                         )
+                        for attr_name in border_color_attributes:
+                            extract_colors_from_attribute(
+                                getattr(header, attr_name, None)
+                            )
 
         return list(used_colors)
 
